@@ -5,7 +5,7 @@ import FastorModel.Model.Tmatmul
 namespace Fastor.Driver
 open Fastor
 
-def routeName : Matmul.Route → String
+private def routeName : Matmul.Route → String
   | .nonPrimitive => "nonprim" | .matvec => "matvec" | .smallN => "smalln" | .base => "base"
   | .baseMasked => "basemasked" | .tiny => "tiny" | .spec => "spec"
 
